@@ -128,7 +128,9 @@ Definition run_case (c : sexp) : sexp :=
     SList [snat (match of_acc f with RDONLY => 0 | WRONLY => 1 | RDWR => 2 end)%N; sbool (of_trunc f); sbool (of_creat f)]
   else if head_is c "seq" then
     let h0 := sandbox (get_N (arg c 0)) in
-    let ops := skipn 2 (get_list c) in
+    (* (root K) records which spelling of the export path the harness gave NewServer;
+       Base is the cleaned path whatever the spelling *)
+    let ops := filter (fun x => negb (head_is x "root")) (skipn 2 (get_list c)) in
     let '(s, l) := run_obs (init h0) [] ops in
     SList (ssym "obs" :: l ++ [SList [ssym "final"; sexp_content (u_host s);
                                       SList [ssym "outside"; sbool (outside_intact (u_host s) h0)]]])
